@@ -106,8 +106,11 @@ def budget_cases(unlimited, tick_meta):
                 cid = "b%d" % k
                 k += 1
                 # the budget is a property of the evaluator: a second program on the same evaluator keeps counting
-                cases.append({"id": cid, "cfg": {"dialect": "internal"}, "units": ([TICK_LIB] if "tl.star" in src else []) +
-                              [{"file": "m.star", "src": src, "cfg": {"dialect": "internal", "probe": PROBE, "max_ticks": B, "reuse_eval": reuse}}]})
+                unit = {"file": "m.star", "src": src, "cfg": {"dialect": "internal", "probe": PROBE, "max_ticks": B, "reuse_eval": reuse}}
+                if reuse:
+                    # same program again on the same evaluator: the budget is the evaluator's, ticks keep counting
+                    unit["evals"] = [{"src": src}, {"src": src}]
+                cases.append({"id": cid, "cfg": {"dialect": "internal"}, "units": ([TICK_LIB] if "tl.star" in src else []) + [unit]})
                 meta[cid] = ("ticks_budget", name, a, b, N, B, reuse)
     return cases, meta
 
@@ -126,7 +129,13 @@ def cancel_cases(rng, n):
         else:
             body = "def note(j):\n    if j %% 100 == 0:\n        emit(\"after\", j)\n    return j\ndef run():\n    for i in range(%d):\n        pass\n    cancel()\n    return len([note(j) for j in range(5000)])\nrun()\n" % pre
         cid = "c%d" % k
-        cases.append({"id": cid, "cfg": {"dialect": "internal", "probe": PROBE, "reuse_eval": k % 2 == 0}, "units": [{"file": "m.star", "src": body}]})
+        unit = {"file": "m.star", "src": body}
+        reuse = k % 2 == 0
+        if reuse and k % 4 == 0:
+            # history on one evaluator: the limit must be honoured again after it was hit before
+            # (every item cancels at its own position; items run on the same evaluator, flag reset by the host in between)
+            unit["evals"] = [{"src": body.replace("range(%d)" % pre, "range(%d)" % rng.choice([0, 3, 400, 1200, 2100]))} for _ in range(rng.choice([1, 2, 3]))]
+        cases.append({"id": cid, "cfg": {"dialect": "internal", "probe": PROBE, "reuse_eval": reuse}, "units": [unit]})
         meta[cid] = ("cancel", form, pre)
     return cases, meta
 
@@ -259,17 +268,29 @@ def run(tier):
                 continue
             seen_cancel = False
             after = []
+            item = 0
             for e in evs:
                 if e[0] == "cancel":
                     seen_cancel = True
                 elif e[0] == "e" and seen_cancel and e[1] == "safter":
                     after.append(int(e[2][1:]))
-            if r is None or r[3] == "ok":
-                rep.violation("c15:cancel-ignored:" + cmeta[c["id"]][1], "[%s] %s: evaluation ended Ok although cancellation was requested" % (flavor, c["id"]), wit)
-            elif after and max(after) > 1100:
-                rep.violation("c15:cancel-late:" + cmeta[c["id"]][1], "[%s] %s: %d further loop iterations ran after cancel() (documented interval 1000)" % (flavor, c["id"], max(after)), wit)
-            elif r[3] == "err" and "ancel" not in r[4].get("msg", ""):
-                rep.violation("c15:cancel-wrong-error", "[%s] %s: cancelled evaluation ended with %s" % (flavor, c["id"], r[4].get("msg")), wit)
+                elif e[0] == "r" and e[1] != "probe.star":
+                    # one item of the history ends here
+                    r = e
+                    nth = "" if item == 0 else ":item%d-on-same-evaluator" % min(item, 2)
+                    st["cancel_items"] = st.get("cancel_items", 0) + 1
+                    if r[3] == "ok":
+                        rep.violation("c15:cancel-ignored:" + cmeta[c["id"]][1] + nth, "[%s] %s item %d: evaluation ended Ok although cancellation was requested" % (flavor, c["id"], item), wit)
+                    elif after and max(after) > 1100:
+                        rep.violation("c15:cancel-late:" + cmeta[c["id"]][1] + nth, "[%s] %s item %d: %d further loop iterations ran after cancel() (documented interval 1000)" % (
+                            flavor, c["id"], item, max(after)), wit)
+                    elif r[3] == "err" and "ancel" not in r[4].get("msg", ""):
+                        rep.violation("c15:cancel-wrong-error", "[%s] %s item %d: cancelled evaluation ended with %s" % (flavor, c["id"], item, r[4].get("msg")), wit)
+                    seen_cancel = False
+                    after = []
+                    item += 1
+            if item == 0:
+                rep.violation("c15:cancel-no-result", "[%s] %s: no result recorded" % (flavor, c["id"]), wit)
         # ---- phase 2: budgets around N
         bcases, bmeta = budget_cases(unlimited, tmeta)
         # unbounded recursion on small and normal stacks with the default limit
@@ -314,6 +335,24 @@ def run(tier):
                 pr = [e for e in evs if e[0] == "r" and e[1] == "probe.star"]
                 if pr and (pr[0][3] != "ok" or pr[0][4] != PROBE_EXPECT) and B >= N + 100:
                     rep.violation("c15:probe-after:tick-limit", "[%s] %s: probe on a fresh evaluator after tick-limit run gives %s" % (flavor, c["id"], json.dumps(pr[0][3:5])[:200]), wit)
+                # history on one evaluator: item k starts at T ticks; it must succeed iff T + N <= B, and otherwise stop within the interval
+                items = [e for e in evs if e[0] == "r" and e[1].startswith("m.star")]
+                probes = [e for e in evs if e[0] == "r" and e[1] == "probe.star"]
+                for k in range(1, len(items)):
+                    prev_end = probes[k - 1][6] if len(probes) >= k and len(probes[k - 1]) > 6 else items[k - 1][6]
+                    it = items[k]
+                    st["budget_items"] = st.get("budget_items", 0) + 1
+                    if prev_end + N <= B:
+                        if it[3] != "ok":
+                            rep.violation("c15:within-budget-fails:item-on-same-evaluator:" + name, "[%s] %s item %d: started at %d ticks, needs %d, budget %d, but failed: %s" % (
+                                flavor, c["id"], k, prev_end, N, B, json.dumps(it[4])[:200]), wit)
+                    else:
+                        if it[3] == "ok":
+                            rep.violation("c15:over-budget-succeeds:item-on-same-evaluator:" + name, "[%s] %s item %d: started at %d ticks, performs %d more, budget %d, but succeeded" % (
+                                flavor, c["id"], k, prev_end, N, B), wit)
+                        elif it[6] > max(B, prev_end) + 1000 + 1:
+                            rep.violation("c15:tick-overshoot:item-on-same-evaluator:" + name, "[%s] %s item %d: started at %d ticks with budget %d and stopped only at %d (documented check interval 1000)" % (
+                                flavor, c["id"], k, prev_end, B, it[6]), wit)
                 if N <= B:
                     st["budget_ok"] += 1
                     if r[3] != "ok":
@@ -342,6 +381,8 @@ def run(tier):
         "budget_runs_within": st["budget_ok"],
         "budget_runs_over": st["budget_fail"],
         "cancellation_runs": st["cancel"],
+        "cancellation_items_incl_repeats_on_one_evaluator": st.get("cancel_items", 0),
+        "budget_items_repeated_on_one_evaluator": st.get("budget_items", 0),
         "unbounded_recursion_runs_8MiB_and_2MiB": st["unbounded"],
         "flavors": flavors,
         "exhaustive": False,
